@@ -461,6 +461,10 @@ func (db *RockDB) ZRem(ts int64, key []byte, members ...[]byte) (int64, error) {
 	if err != nil {
 		return 0, err
 	}
+	if keyInfo.IsNotExistOrExpired() {
+		// an expired zset is absent
+		return 0, nil
+	}
 	table := keyInfo.Table
 
 	wb := db.wb
@@ -698,8 +702,8 @@ func (db *RockDB) zRemRangeBytes(ts int64, key []byte, keyInfo collVerKeyInfo, o
 	if err != nil {
 		return 0, err
 	}
-	if total == 0 {
-		// no data to be deleted, avoid iterator data
+	if total == 0 || keyInfo.IsNotExistOrExpired() {
+		// no data to be deleted (an expired zset is absent), avoid iterator data
 		return 0, nil
 	}
 	// if count >= total size , remove all
@@ -1117,6 +1121,10 @@ func (db *RockDB) internalZRemRangeByLex(ts int64, key []byte, min []byte, max [
 	keyInfo, err := db.getZSetForRangeWithMinMax(ts, key, min, max, false)
 	if err != nil {
 		return 0, err
+	}
+	if keyInfo.IsNotExistOrExpired() {
+		// an expired zset is absent
+		return 0, nil
 	}
 
 	it, err := db.NewDBRangeIterator(keyInfo.RangeStart, keyInfo.RangeEnd, rangeType, false)
